@@ -64,6 +64,15 @@ def run(ctx):
         onepass.check(ctx, ctx.program.func(cls + '.update_extend'), 'E', recv=ctx.program.cls(cls))
         onepass.check(ctx, ctx.program.func(cls + '.fromkeys'), 'keys', recv=ctx.program.cls(cls))
         onepass.first_seen(ctx, ctx.program.func(cls + '.update'))
+        # T11.replace: update() *replaces* the values of the keys it is given, update_extend() / extend() *add* to them; update
+        # never hands its sources to the adding siblings (not even for an empty receiver: a key given both positionally and
+        # as a keyword must end up with the keyword's value only)
+        upf = ctx.program.func(cls + '.update')
+        addcalls = [n for n in ast.walk(upf.node) if isinstance(n, ast.Call) and isinstance(n.func, ast.Attribute) and
+                    isinstance(n.func.value, ast.Name) and n.func.value.id == 'self' and n.func.attr in ('update_extend', 'extend')]
+        ctx.ob('T11.replace', upf.fq, 'update() does not delegate to the adding bulk operations (update_extend / extend)', not addcalls,
+               loc='%s:%d' % (upf.module.relpath, addcalls[0].lineno) if addcalls else upf.loc,
+               detail=txt(addcalls[0])[:80] if addcalls else '')
         check_get_none_presence(ctx, ctx.program.func(cls + '.__eq__'))
         # T27: order-of-all-pairs consumers read the pair view
         prog = ctx.program
